@@ -2,18 +2,18 @@ SPECIFICATION Spec
 CONSTANTS
   Peers = {1, 2, 3}
   MaxR = 4
-  PT <- PTFull
-  Modes = {"follow"}
-  ChainedSet = {FALSE}
-  Starts = {0, 1, 2, 3}
-  Targets = {0, 1, 2, 3, 4}
-  Corruptions <- NoCorruption
+  PT <- PTRepair
+  Modes = {"repair"}
+  ChainedSet = {TRUE, FALSE}
+  Starts = {3}
+  Targets = {0, 3, 4}
+  Corruptions <- CorrQuick
   NT = 1
   FollowRetries = TRUE
   FollowAppend = TRUE
   ResyncChecksRound = TRUE
   ResyncDeletesFirst = FALSE
-  CheckZeroIsClock = FALSE
+  CheckZeroIsClock = TRUE
   Aborts = FALSE
   PinsOperatorHash = TRUE
   MaxAgg = 0
@@ -21,6 +21,6 @@ CONSTANTS
   Linger = FALSE
   History = TRUE
   Eager = FALSE
-INVARIANTS TypeOK Inv_OnlyVerifiedInOrder Inv_NothingFromLiars Inv_Chain Inv_RepairUntouched
+INVARIANTS TypeOK Inv_OnlyVerifiedInOrder Inv_NothingFromLiars Inv_Chain Inv_RepairUntouched Inv_RepairKeepsHead
 VIEW View
 CHECK_DEADLOCK FALSE
